@@ -38,6 +38,7 @@ type Ctx struct {
 	Stats       map[string]int
 	Notes       []string
 	explanation []string
+	extra       map[string]any
 }
 
 type Obligation struct {
